@@ -1149,7 +1149,10 @@ def join_shape(a, b):
     if ta == "iter" and tb == "iter":
         return a
     if ta == "obj" and tb == "obj" and a[1] == b[1]:
-        return a
+        fa, fb = dict(a[2]), dict(b[2])
+        if fa.keys() != fb.keys():
+            raise EngineError("object gains/loses fields inside a loop")
+        return ("obj", a[1], tuple(sorted((k, fa[k] if fa[k] == fb[k] else join_shape(fa[k], fb[k])) for k in fa)))
     raise EngineError(f"cannot join shapes {a} and {b} (variable changes type inside a loop)")
 
 
@@ -1181,7 +1184,7 @@ def heap_shape(I, st, obj):
     if isinstance(obj, IterVal):
         return ("iter",)
     if isinstance(obj, ObjVal):
-        return ("obj", obj.cls)
+        return ("obj", obj.cls, tuple(sorted((k, shape_of(I, st, v)) for k, v in obj.fields.items())))
     if isinstance(obj, ViewVal):
         return ("view",)
     raise EngineError(f"heap shape of {type(obj).__name__}")
@@ -1209,7 +1212,15 @@ def fresh_heap_of_shape(I, st, sh, old, hid):
         st.assume(z3.And(p >= 0, p <= rs.length))
         return IterVal(old.seq, p)
     if t == "obj":
-        raise EngineError("object mutated inside a loop with invariant (fields would need shapes)")
+        flds = {}
+        for k, fsh in sh[2]:
+            if fsh[0] == "same":
+                flds[k] = old.fields[k]
+            elif fsh[0] == "str" and isinstance(old.fields.get(k), StrV) and old.fields[k].concrete:
+                flds[k] = fresh_of_shape(I, st, fsh, k)
+            else:
+                flds[k] = fresh_of_shape(I, st, fsh, k)
+        return ObjVal(old.cls, flds)
     raise EngineError(f"fresh heap of shape {sh}")
 
 
